@@ -236,6 +236,9 @@ func (c Call) build() *args {
 			// name its fields in Go's map iteration order
 			shape = 2
 		}
+		if typeName(c.Type) == "Chain" && shape > 1 {
+			shape = 0 // values of different depths have different Go types: no slice / map / array of them
+		}
 		if c.Entry == EDump {
 			// the dump text lists map entries in iteration order: one entry per map only
 			if shape == 3 {
